@@ -124,6 +124,25 @@ def _breakage_pair_is_joined_pair(ck):
     fn = p.find_function("sv.molecule_indels", "find_conflict_place")
     if fn is None:
         raise AnalysisError("sv.molecule_indels.find_conflict_place not found")
+    # positively recognised: the pair is only known to OCCUR in the joined record (`pair in joined.alignedPairs`), and its index in the
+    # part is recorded as if it were its index in the joined record
+    parents0 = {c: par for par in ast.walk(fn.node) for c in ast.iter_child_nodes(par)}
+    for st0 in [n for n in ast.walk(fn.node) if isinstance(n, ast.Assign) and len(n.targets) == 1 and isinstance(n.targets[0], ast.Subscript)
+                and isinstance(n.value, (ast.List, ast.Tuple)) and len(n.value.elts) == 2 and isinstance(n.value.elts[1], ast.Name)]:
+        cur0 = st0
+        while cur0 in parents0:
+            par0 = parents0[cur0]
+            if isinstance(par0, ast.If) and cur0 in par0.body and isinstance(par0.test, ast.Compare) and len(par0.test.ops) == 1 \
+                    and isinstance(par0.test.ops[0], ast.In) and isinstance(par0.test.left, ast.Name) \
+                    and par0.test.left.id == st0.value.elts[1].id and ast.unparse(par0.test.comparators[0]).endswith(".alignedPairs"):
+                ck.violation("C20.9", "molecule_indels.find_conflict_place:breakage:differs", where(fn, st0),
+                             "the pair recorded is only known to occur SOMEWHERE in the joined record (`in`), and the index recorded with it "
+                             "is its index in the part: when a trimmed tail pair of the part is also aligned by the other part it sits "
+                             "earlier in the joined record, alignedPairs[index + 1] is not its neighbour and the call spans several gaps",
+                             found=f"if {ast.unparse(par0.test)}: {ast.unparse(st0)[:80]}",
+                             required="[i, joined.alignedPairs[i]] with i the pair's index in the JOINED record")
+                return
+            cur0 = par0
     loops = [n for n in ast.walk(fn.node) if isinstance(n, ast.For) and isinstance(n.iter, ast.Call)
              and ast.unparse(n.iter.func) == "enumerate" and isinstance(n.target, ast.Tuple) and len(n.target.elts) == 2
              and all(isinstance(e, ast.Name) for e in n.target.elts)]
